@@ -48,6 +48,8 @@ class _bytes(bytes, metaclass=_BytesMeta):
         if a:
             x = a[0]
             if isinstance(x, SymBytes):
+                if x._items is None:
+                    return x  # lazily rendered: do not force
                 if x.is_concrete():
                     return _real_bytes(x.items)
                 return SymBytes(x.items, 'bytes')
@@ -65,7 +67,7 @@ class _bytes(bytes, metaclass=_BytesMeta):
                     and hasattr(type(x), '__bytes__'):
                 r = x.__bytes__()
                 if isinstance(r, SymBytes):
-                    return r if r.kind == 'bytes' else SymBytes(r.items, 'bytes')
+                    return r if r.kind == 'bytes' or r._items is None else SymBytes(r.items, 'bytes')
                 return r
             if hasattr(x, '__iter__') and not isinstance(
                     x, (_real_bytes, bytearray, memoryview, str)):
@@ -568,12 +570,21 @@ def _h_mod(a: Any, b: Any) -> Any:
 
 
 def _h_in(x: Any, container: Any) -> Any:
+    t = type(container)
+    if t in (set, frozenset, dict):
+        if not container:
+            return False
+        if is_sym(x):
+            if _all_sym_keys(container):
+                return x in container  # constant-hash members: native probe forks on ==
+            return _scan_contains(container, x)
+        if _all_sym_keys(container) and isinstance(x, (int, bytes, str)):
+            # concrete probe into a container of symbolic members: the real
+            # hash would miss; scan with symbolic equality
+            return _scan_contains(container, x)
+        return x in container
     if is_sym(x):
-        t = type(container)
-        if t in (set, frozenset, dict) or isinstance(container, (
-                type({}.keys()), type({}.values()))):
-            if t in (set, frozenset, dict) and _all_sym_keys(container):
-                return x in container
+        if isinstance(container, (type({}.keys()), type({}.values()))):
             return _scan_contains(container, x)
         if t in _STR_TYPES:
             return x in lift(container)
